@@ -115,3 +115,149 @@ Section Total.
     apply emit_no_panic. unfold layout in El. eapply layout_loop_length; [|exact El]. apply repeat_length.
   Qed.
 End Total.
+
+(* ---------- phase 1 never panics; hence Assembler::assemble as a whole ---------- *)
+Section PushTotal.
+  Variable macros : mtable.
+
+  Lemma check_unsized_no_panic : forall v s, check_unsized v <> Panic s.
+  Proof. intros. unfold check_unsized. destruct (v <? 0); [discriminate|]. destruct (Nat.ltb _ _); discriminate. Qed.
+
+  Lemma early_check_no_panic : forall it s, early_check macros it <> Panic s.
+  Proof.
+    intros it s. destruct it as [l|c [e|]|e|raw]; cbn [early_check]; try discriminate.
+    - destruct (eval_op macros no_labels e) as [v|er|sx] eqn:E.
+      + destruct (concretize_imm _ _ v) as [b|er|sx] eqn:Ec; cbn [bind]; try discriminate.
+        intros _. exact (concretize_no_panic _ _ _ _ Ec).
+      + destruct (String.eqb _ _); discriminate.
+      + intros _. exact (eval_no_panic _ _ _ _ _ _ E).
+    - destruct (eval_op macros no_labels e) as [v|er|sx] eqn:E.
+      + apply check_unsized_no_panic.
+      + destruct (String.eqb _ _); discriminate.
+      + intros _. exact (eval_no_panic _ _ _ _ _ _ E).
+  Qed.
+
+  Lemma push_item_no_panic : forall st it operand s, push_item macros st it operand <> Panic s.
+  Proof.
+    intros st it operand s. unfold push_item. destruct operand as [e|]; [|discriminate].
+    destruct (elabels _ _ e) as [ls|er|sx] eqn:El; try discriminate.
+    - destruct (early_check macros it) as [[]|er|sx] eqn:Ec; cbn [bind]; try discriminate.
+      intros _. exact (early_check_no_panic _ _ Ec).
+    - intros _. exact (elabels_no_panic _ _ _ _ El).
+  Qed.
+
+  Lemma rename_pass_no_panic : forall n body ctr ren s, rename_pass n body ctr ren <> Panic s.
+  Proof.
+    intros n. induction body as [|a r IH]; intros ctr ren s; cbn [rename_pass]; [discriminate|].
+    destruct a as [c imm|l|e|m ps b|m ps b|m args];
+      try (destruct (rename_pass n r ctr ren) as [[[r' c'] ren']|er|sx] eqn:E; cbn [bind]; try discriminate;
+           intros _; exact (IH _ _ _ E)).
+    destruct (existsb _ ren); [discriminate|].
+    destruct (rename_pass n r (ctr + 1)%N (ren ++ [(l, mangle n l ctr)])) as [[[r' c'] ren']|er|sx] eqn:E; cbn [bind]; try discriminate.
+    intros _. exact (IH _ _ _ E).
+  Qed.
+
+  Lemma push_op_no_panic : forall fuel st a s, push_op macros fuel st a <> Panic s.
+  Proof.
+    induction fuel as [|f IH]; intros st a s; destruct a as [c imm|l|e|n ps b|n ps b|n args]; cbn [push_op];
+      try apply push_item_no_panic; try discriminate;
+      try (destruct (mem l (a_declared st)); discriminate).
+    - destruct (mlookup macros n) as [[ps body|d]|]; try discriminate. destruct (negb _); discriminate.
+    - destruct (mlookup macros n) as [[ps body|d]|]; try discriminate. destruct (negb _); [discriminate|].
+      destruct (rename_pass n body (a_ctr st) []) as [[[body1 ctr'] ren]|er|sx] eqn:Er; cbn [bind]; try discriminate.
+      + generalize (mkast (a_ready st) (a_declared st) (a_undeclared st) ctr') as s0.
+        generalize (map (rewrite_op ren (combine ps args)) body1) as l.
+        induction l as [|b r IHl]; intros s0; [discriminate|].
+        destruct (push_op macros f s0 b) as [s1|er|sx] eqn:Eb; cbn [bind]; try discriminate.
+        * apply IHl.
+        * intros _. exact (IH _ _ _ Eb).
+      + intros _. exact (rename_pass_no_panic _ _ _ _ _ Er).
+  Qed.
+End PushTotal.
+
+Lemma declare_macros_no_panic : forall ops t s, declare_macros ops t <> Panic s.
+Proof.
+  induction ops as [|o r IH]; intros t s; cbn [declare_macros]; [discriminate|].
+  destruct o as [a|l|bs]; try apply IH.
+  destruct a as [c imm|l|e|n ps b|n ps b|n args]; try apply IH;
+    (destruct (mlookup t n); [discriminate|apply IH]).
+Qed.
+
+(* one scope never panics if assembling nested scopes never does *)
+Lemma assemble_with_no_panic : forall rec ops,
+  (forall inner s, In (RScope inner) ops -> rec (RScope inner) <> Panic s) ->
+  forall s, assemble_with rec ops <> Panic s.
+Proof.
+  intros rec ops Hrec s. unfold assemble_with.
+  destruct (declare_macros ops []) as [macros|er|sx] eqn:Ed; cbn [bind]; try discriminate.
+  - match goal with |- bind ?g _ <> _ => destruct g as [st|er|sx] eqn:Eg end; cbn [bind]; try discriminate.
+    + apply finish_scope_no_panic.
+    + intros _. revert Eg Hrec. generalize ainit as s0. generalize ops as l.
+      induction l as [|r l IH]; intros s0 Eg Hrec; [discriminate|].
+      destruct r as [a|inner|bs].
+      * destruct (push_op macros EXPANSION_FUEL s0 a) as [s1|er|sy] eqn:Ep; cbn [bind] in Eg; try discriminate.
+        -- apply (IH s1 Eg). intros i s' Hi. apply Hrec. now right.
+        -- inversion Eg; subst. exact (push_op_no_panic _ _ _ _ _ Ep).
+      * destruct (rec (RScope inner)) as [bs|er|sy] eqn:Er; cbn [bind] in Eg; try discriminate.
+        -- apply (IH _ Eg). intros i s' Hi. apply Hrec. now right.
+        -- inversion Eg; subst. exact (Hrec inner sx (or_introl eq_refl) Er).
+      * apply (IH _ Eg). intros i s' Hi. apply Hrec. now right.
+  - intros _. exact (declare_macros_no_panic _ _ _ Ed).
+Qed.
+
+(* induction on the nesting of scopes *)
+Fixpoint scope_depth (r : rawop) : nat :=
+  match r with
+  | RScope l => S (fold_right (fun x acc => Nat.max (scope_depth x) acc) 0%nat l)
+  | _ => 0%nat
+  end.
+
+Lemma scope_depth_in : forall l x, In x l -> (scope_depth x <= fold_right (fun x acc => Nat.max (scope_depth x) acc) 0%nat l)%nat.
+Proof.
+  induction l as [|y l IH]; intros x Hin; [destruct Hin|]. cbn [fold_right].
+  destruct Hin as [->|Hin]; [lia|]. specialize (IH x Hin). lia.
+Qed.
+
+Theorem assemble_scope_no_panic : forall n l s, (scope_depth (RScope l) <= n)%nat -> assemble_scope (RScope l) <> Panic s.
+Proof.
+  induction n as [|n IH]; intros l s Hd; [cbn in Hd; lia|].
+  cbn [assemble_scope]. apply assemble_with_no_panic. intros inner s' Hin.
+  apply IH. cbn [scope_depth] in Hd. pose proof (scope_depth_in l (RScope inner) Hin) as H. lia.
+Qed.
+
+Theorem assemble_no_panic : forall ops s, assemble ops <> Panic s.
+Proof.
+  intros ops s. unfold assemble. apply assemble_with_no_panic. intros inner s' Hin.
+  apply (assemble_scope_no_panic (scope_depth (RScope inner))). lia.
+Qed.
+
+(* the parser's constant check and Ingest::ingest on a syntax tree *)
+Lemma parse_push_check_no_panic : forall c e s, parse_push_check c e <> Panic s.
+Proof.
+  intros c e s. unfold parse_push_check.
+  destruct (eval no_labels (fun _ => None) 0 None e); try discriminate. destruct (_ <=? _); discriminate.
+Qed.
+
+Lemma parse_check_aop_no_panic : forall a s, parse_check_aop a <> Panic s.
+Proof.
+  fix IH 1. intros a s. destruct a as [c [e|]|l|e|n ps b|n ps b|n args]; cbn [parse_check_aop]; try discriminate.
+  - apply parse_push_check_no_panic.
+  - induction b as [|x r IHr]; [discriminate|].
+    destruct (parse_check_aop x) as [[]|er|sx] eqn:E; cbn [bind]; try discriminate; [exact IHr|].
+    intros _. exact (IH x sx E).
+Qed.
+
+Lemma parse_check_no_panic : forall ops s, parse_check ops <> Panic s.
+Proof.
+  induction ops as [|o r IH]; intros s; cbn [parse_check]; [discriminate|].
+  destruct o as [a|l|bs]; try apply IH.
+  destruct (parse_check_aop a) as [[]|er|sx] eqn:E; cbn [bind]; try discriminate; [apply IH|].
+  intros _. exact (parse_check_aop_no_panic _ _ E).
+Qed.
+
+Theorem ingest_ast_no_panic : forall ops s, ingest_ast ops <> Panic s.
+Proof.
+  intros ops s. unfold ingest_ast.
+  destruct (parse_check ops) as [[]|er|sx] eqn:E; cbn [bind]; try discriminate; [apply assemble_no_panic|].
+  intros _. exact (parse_check_no_panic _ _ E).
+Qed.
